@@ -59,3 +59,20 @@ package types
 //@   ensures[commitment] result == keccak(catB(catB(emptyB(), bytesOf(hb(c.NewLocalExitRoot), 32)), bytesOf(hb(keccak(chainH(ppChunks, len(c.ImportedBridgeExits)))), 32)))
 //@   loop 0 invariant 0 <= rangeindex + 1 && rangeindex + 1 <= len(c.ImportedBridgeExits) && len(globalIndexHashes) == len(c.ImportedBridgeExits) && off(globalIndexHashes) == 0 && fresh(ref(globalIndexHashes))
 //@   loop 0 invariant forall(k, 0, rangeindex + 1, len(globalIndexHashes[k]) == 32 && hashOf(seq(globalIndexHashes[k])) == keccak(catB(emptyB(), leB(giVal(c.ImportedBridgeExits[k].GlobalIndex.MainnetFlag, c.ImportedBridgeExits[k].GlobalIndex.RollupIndex, c.ImportedBridgeExits[k].GlobalIndex.LeafIndex)))))
+
+// ---- the certificate identity (C10): keccak over network id, height, both exit roots, the chain of the bridge-exit
+// leaf hashes and the chain of the imported-exit hashes, in order. claimHash is the hash of the claim data object
+// (its own structure is not decomposed here); idExits / idImported are the ghost sequences of the per-exit hashes.
+//@ ghost field claimHash Hash
+//@ interface github.com/agglayer/aggkit/agglayer/types.Claim.Hash (self)
+//@   modifies nothing
+//@   ensures result == claimHash(self)
+
+//@ spec fn ibeHash(be Hash, claim Hash, gi Hash) Hash = keccak(catB(catB(catB(emptyB(), bytesOf(hb(be), 32)), bytesOf(hb(claim), 32)), bytesOf(hb(gi), 32)))
+//@ func (c *ImportedBridgeExit) Hash
+//@   props C10
+//@   requires c != nil && c.BridgeExit != nil && c.BridgeExit.TokenInfo != nil && c.BridgeExit.Amount != nil && c.ClaimData != nil && c.GlobalIndex != nil
+//@   requires 0 <= bigval(c.BridgeExit.Amount) && bigval(c.BridgeExit.Amount) < 115792089237316195423570985008687907853269984665640564039457584007913129639936
+//@   modifies c.BridgeExit.Amount
+//@   ensures[commits-to-exit-claim-and-index] result == ibeHash(exitLeafValue(c.BridgeExit.LeafType, c.BridgeExit.TokenInfo.OriginNetwork, c.BridgeExit.TokenInfo.OriginTokenAddress, c.BridgeExit.DestinationNetwork, c.BridgeExit.DestinationAddress, bigval(c.BridgeExit.Amount), ite(len(c.BridgeExit.Metadata) == 0, bytesOf(hb(keccak(emptyB())), 32), bytesOf(seq(c.BridgeExit.Metadata), len(c.BridgeExit.Metadata)))), claimHash(c.ClaimData), keccak(catB(emptyB(), leB(giVal(c.GlobalIndex.MainnetFlag, c.GlobalIndex.RollupIndex, c.GlobalIndex.LeafIndex)))))
+//@   ensures[unchanged] c.BridgeExit.Amount == old(c.BridgeExit.Amount)
